@@ -993,14 +993,15 @@ func (zl *zlexer) Next() (lex, bool) {
 				return *l, true
 			}
 		case '\r':
-			escape = false
-
-			if zl.quote {
+			if escape || zl.quote {
+				// Inside quotes or escaped this is legal.
 				str[stri] = x
 				stri++
 			}
 
-			// discard if outside of quotes
+			escape = false
+
+			// discard if outside of quotes and not escaped
 		case '\n':
 			escape = false
 
@@ -1087,6 +1088,7 @@ func (zl *zlexer) Next() (lex, bool) {
 			stri++
 
 			escape = true
+			zl.space = false // a token has begun, also when it holds escaped blanks or specials only
 		case '"':
 			if zl.commt {
 				com[comi] = x
